@@ -67,7 +67,27 @@ Definition run_trace (inp : list Z) : list Z :=
   | _ => [9]
   end.
 
+(* history part.  input: B (n_1 c_11..c_1n_1) (n_2 ...) ...   the costs of the instructions each operation
+   executes when fuel never runs out;  output: per operation  ok(0/1) consumed remaining *)
+Fixpoint split_ops (gas : nat) (inp : list Z) : list (list Z) :=
+  match gas, inp with
+  | S g, n :: r => takeZ n r :: split_ops g (skipZ n r)
+  | _, _ => []
+  end.
+Fixpoint run_hist (t : tracker) (ops : list (list Z)) : list Z :=
+  match ops with
+  | [] => []
+  | costs :: r =>
+      let '(_, t', ok) := watch track t costs in
+      (if ok then 0 else 1) :: consumed t' :: get_remaining t' :: run_hist t' r
+  end.
+Definition run_history (inp : list Z) : list Z :=
+  match inp with
+  | B :: r => run_hist (new B) (split_ops (length r) r)
+  | _ => [9]
+  end.
+
 Open Scope string_scope.
 Definition runners : list (string * (list Z -> list Z)) :=
   [ ("c13", run); ("c13-spec", spec); ("c13-old-debug", run_old true); ("c13-old-release", run_old false);
-    ("c13-trace", run_trace) ].
+    ("c13-trace", run_trace); ("c13-history", run_history) ].
